@@ -10,8 +10,8 @@ B8 = [0, 1, 2, 127, 128, 129, 254, 255]
 B16 = [0, 1, 255, 256, 257, 0x7FFF, 0x8000, 0xFFFF, 0x1234]
 SMALL = [0, 1, 2, 3, 5]
 DEFAULTS = {"a": 0x11, "b": 0x22, "c": 0x33, "sa": 0x44, "sb": 0x55, "s": 0x1066, "t": 0x2077, "ss": 0x3088,
-            "arr": [17, 3, 128, 255, 0, 200, 64, 9], "sarr": [0x0102, 0x80FF, 0x00FF, 0xFF00], "tab": [3, 60, 129, 250], "p": 0, "sca": [0, 240, 5, 128]}
-ARR2 = {"arr": [0, 255, 1, 127, 129, 2, 254, 77], "sarr": [0xFFFF, 0, 0x7FFF, 0x8001], "sca": [255, 1, 127, 129]}
+            "arr": [17, 3, 128, 255, 0, 200, 64, 9], "sarr": [0x0102, 0x80FF, 0x00FF, 0xFF00], "tab": [3, 60, 129, 250], "p": 0, "sca": [0, 240, 5, 128], "pca": [3, 200, 127, 128]}
+ARR2 = {"arr": [0, 255, 1, 127, 129, 2, 254, 77], "sarr": [0xFFFF, 0, 0x7FFF, 0x8001], "sca": [255, 1, 127, 129], "pca": [255, 0, 129, 1]}
 # a register the program never names must come out as it went in: it starts with a value no scratch use would leave behind
 REG_SENTINEL = {"X": 0xC3, "Y": 0x5A}
 
